@@ -36,7 +36,7 @@ ASSUMPTIONS = [
     "a NameValue section that is flagged present is non-empty (an empty flagged section is not self-delimiting by "
     "design of the terminated wrapper)",
 ]
-MUST_REACH = {"flag_pcode_pairs_covered": 2048, "compared": 3000, "reencoded_identical": 3000, "mutants_compared": 300,
+MUST_REACH = {"namevalue_collections_repeating_their_first_entry": 50, "flag_pcode_pairs_covered": 2048, "compared": 3000, "reencoded_identical": 3000, "mutants_compared": 300,
               "pcodes_covered": 4, "te_face_bitfields_checked": 100, "fast_results_scribbled": 100,
               "reencoded_identical_plain_data_form": 3000, "cache_files_read": 5, "cache_entries_at_size_limits": 5,
               "compared_from_cache_file": 50, "special_rotations": 300}
@@ -354,6 +354,8 @@ def run(ctx):
         flags = rng.getrandbits(32)
         one_case(ctx, flags, rng.choice(pcodes), rng.getrandbits(31))
     cache_file_route(ctx, rng)
+    for k, v in gen_spec.STATS.items():
+        ctx.count(k, v)
     ctx.flag("exhaustive", True)
 
 
